@@ -146,9 +146,50 @@ def main_probe(ctx):
     return violations, corr_fail, len(reqs), stripped
 
 
+def multi_file(ctx):
+    """the version of a configuration read from several files is the merged one (the last file that declares one), every file's
+    version is parsed (a non-semver one is a parse error wherever the file stands in the read order), and the gate judges the
+    merged version; whole command in-process with a build version, compared with the runner model and judged directly"""
+    from vlib import runsc
+    valid = "parameters: {p: 1}\n"
+    def ver(v):
+        return "version: %s\n" % gen.yaml_str(v) + valid
+    cases = [
+        ("bad-version-first-of-glob", {"cfg/10.yaml": ver("v1.4.0"), "cfg/20.yaml": valid}, ["cfg/*.yaml"], "1.4.2", False),
+        ("bad-version-middle-of-glob", {"cfg/10.yaml": valid, "cfg/20.yaml": ver("1.4.0.0"), "cfg/30.yaml": ver("1.4.0")}, ["cfg/*.yaml"], "1.4.2", False),
+        ("bad-version-last-of-glob", {"cfg/10.yaml": valid, "cfg/20.yaml": ver("v1.4.0")}, ["cfg/*.yaml"], "1.4.2", False),
+        ("bad-version-first-pattern", {"cfg/10.yaml": ver("x"), "cfg/20.yaml": valid}, ["cfg/10.yaml", "cfg/20.yaml"], "1.4.2", False),
+        ("version-only-in-first-file-rejected", {"cfg/10.yaml": ver("2.0.0"), "cfg/20.yaml": valid}, ["cfg/*.yaml"], "1.4.2", False),
+        ("version-only-in-first-file-accepted", {"cfg/10.yaml": ver("1.3.0"), "cfg/20.yaml": valid}, ["cfg/*.yaml"], "1.4.2", True),
+        ("later-file-wins-accept", {"cfg/10.yaml": ver("2.0.0"), "cfg/20.yaml": ver("1.4.0")}, ["cfg/*.yaml"], "1.4.2", True),
+        ("later-file-wins-reject", {"cfg/10.yaml": ver("1.4.0"), "cfg/20.yaml": ver("2.0.0")}, ["cfg/*.yaml"], "1.4.2", False),
+        ("later-pattern-wins-reject", {"cfg/10.yaml": ver("2.0.0"), "cfg/20.yaml": ver("1.4.0")}, ["cfg/20.yaml", "cfg/10.yaml"], "1.4.2", False),
+        ("prerelease-build-lower-minor", {"cfg/10.yaml": ver("1.2.0")}, ["cfg/10.yaml"], "1.3.0-rc.1", True),
+        ("prerelease-build-lower-minor-2-files", {"cfg/10.yaml": ver("1.9.0"), "cfg/20.yaml": ver("1.2.0-beta+x")}, ["cfg/*.yaml"], "1.3.0-rc.1+b5", True),
+        ("devel-build-skips-gate-not-parse", {"cfg/10.yaml": ver("v9"), "cfg/20.yaml": valid}, ["cfg/*.yaml"], "devel", False),
+        ("devel-build-skips-gate", {"cfg/10.yaml": ver("9.9.9"), "cfg/20.yaml": valid}, ["cfg/*.yaml"], "devel", True),
+    ]
+    violations, corr_fail = [], []
+    for name, files, pats, build, want in cases:
+        sc = {"name": name, "files": files, "patterns": pats, "out": "out/gen.go", "pre": "absent", "flags": {"quiet": True}, "version": build}
+        r = runsc.run_scenario(ctx, sc)
+        ip = r.get("inproc") or {}
+        if "panic" in ip:
+            violations.append({"sig": "panic", "what": ip["panic"], "input": {"build": build, "case": name}}); continue
+        acc = ip.get("exit") == 0
+        if acc != want:
+            violations.append({"sig": "gate-multi-file", "what": "%s: build %r, files %r under %r: %s, expected %s (%s)" % (
+                name, build, files, pats, "accepted" if acc else "rejected", "accept" if want else "reject", (ip.get("errs") or [""])[0][:200]), "input": {"build": build, "case": name}})
+        for d in r["diffs"][:1]:
+            if len(corr_fail) < 10:
+                corr_fail.append({"op": "run:" + d[0], "scenario": sc, "impl": d[1], "model": d[2]})
+    return violations, corr_fail, len(cases)
+
+
 def run(ctx):
     vs = versions(full=not ctx.quick)
-    builds = (vs[::3] if not ctx.quick else vs[::2]) + NON_SEMVER_B
+    # stride 3 over [release, prerelease+build, release, …]: builds of both forms in every tier
+    builds = vs[::3] + NON_SEMVER_B
     confs = vs if ctx.quick else vs[::2]
     reqs, meta = [], []
     for b in builds:
@@ -208,6 +249,10 @@ def run(ctx):
     violations += ev
     corr_fail += ec
     dist["e2e_linked_binaries_x_configs"] = en
+    mv, mc, mn = multi_file(ctx)
+    violations += mv
+    corr_fail += mc
+    dist["multi_file_cases"] = mn
     pv, pc, pn, pstripped = main_probe(ctx)
     violations += pv
     corr_fail += pc
@@ -221,6 +266,9 @@ def run(ctx):
 
 def replay(ctx, payload):
     i = payload["input"]
+    if "case" in i:
+        vs, _, n = multi_file(ctx)
+        return {"evaluations": n, "distinct_nontrivial": n, "violations": vs, "samples": [i]}
     if "linker" in i:
         vs, _, n = e2e(ctx)
         vs += main_probe(ctx)[0]
